@@ -31,13 +31,17 @@ func init() {
 
 const verifM = order - 1 // 65535
 
-// tableFacts assumes, for a non-zero element x, the instance of
-// "log inverts exp" at x and returns log x.
-func tableFacts(x T) int {
-	a := int(logTable[x-1])
+// elem returns a non-zero field element given by its logarithm: the solver
+// chooses the logarithm a, t = exp(a) on the abstracted table, and the
+// instance of "log inverts exp" at t is assumed.  Natively t is the real
+// exp(a), so a counterexample (a, ...) replays against the real tables.
+func elem(name string) (T, int) {
+	a := int(rt.U16(name))
 	rt.Assume(a < verifM)
-	rt.Assume(expTable[a] == x)
-	return a
+	t := expTable[a]
+	rt.Assume(t != 0)
+	rt.Assume(int(logTable[t-1]) == a)
+	return t, a
 }
 
 // homInstance assumes the instance of H at (a, b): exp((a+b) mod M) = exp(a)*exp(b).
@@ -114,22 +118,25 @@ func VerifHarness_C08_mod_lemmas() {
 }
 
 func VerifHarness_C08_T_times() {
-	t, u := T(rt.U16("t")), T(rt.U16("u"))
-	if t != 0 {
-		if u != 0 {
-			a, b := tableFacts(t), tableFacts(u)
-			homInstance(a, b)
-			rt.Reach("nonzero")
-		}
+	var t, u T
+	switch rt.Choice("zeros", 4) {
+	case 0:
+		var a, b int
+		t, a = elem("logT")
+		u, b = elem("logU")
+		homInstance(a, b)
+		rt.Reach("nonzero")
+	case 1:
+		u, _ = elem("logU")
+	case 2:
+		t, _ = elem("logT")
 	}
 	got := t.Times(u)
 	rt.Assert(uint16(got) == rt.GFMul(uint16(t), uint16(u)), "Times == reduced carry-less product")
 }
 
 func VerifHarness_C08_T_inverse() {
-	t := T(rt.U16("t"))
-	rt.Assume(t != 0)
-	a := tableFacts(t)
+	t, a := elem("logT")
 	n := idxNeg(a)
 	rt.Assume(n >= 0) // C08_mod_lemmas
 	rt.Assume(n < verifM)
@@ -141,10 +148,11 @@ func VerifHarness_C08_T_inverse() {
 }
 
 func VerifHarness_C08_T_div() {
-	t, u := T(rt.U16("t")), T(rt.U16("u"))
-	rt.Assume(u != 0)
-	if t != 0 {
-		a, b := tableFacts(t), tableFacts(u)
+	var t T
+	u, b := elem("logU")
+	if rt.Bool("nonzeroT") {
+		var a int
+		t, a = elem("logT")
 		d := idxSub(a, b)
 		rt.Assume(d >= 0) // C08_mod_lemmas
 		rt.Assume(d < verifM)
@@ -162,23 +170,29 @@ func VerifHarness_C08_T_div() {
 // cases are as specified.  With H, exp((log t * p) mod M) is the p-fold product.
 func VerifHarness_C08_T_pow() {
 	rt.Option("int-mode")
-	t := T(rt.U16("t"))
 	p := rt.MathInt("p")
 	rt.Assume(p >= 0)
 	rt.Assume(p <= 0xffffffff)
-	if t == 0 {
+	if rt.Bool("zeroBase") {
+		t := T(0)
 		rt.Assert(t.Pow(0) == 1, "0^0 == 1")
 		if p > 0 {
 			rt.Assert(t.Pow(uint32(p)) == 0, "0^p == 0 for p > 0")
 		}
 		return
 	}
-	a := int(logTable[t-1])
+	// the base is given by its logarithm a, so that a counterexample (a, p)
+	// replays against the real tables: t = exp(a), and log(t) = a (table lemma)
+	a := rt.MathInt("a")
 	rt.Assume(a >= 0)
 	rt.Assume(a < verifM)
+	t := expTable[a]
+	rt.Assume(t != 0)
+	rt.Assume(int(logTable[t-1]) == a)
 	got := t.Pow(uint32(p))
 	want := expTable[(a*p)%verifM]
 	rt.Assert(got == want, "Pow(t,p) == exp((log t * p) mod 65535), exact integer arithmetic")
+	rt.Assert(t.Pow(0) == 1, "t^0 == 1")
 }
 
 func VerifHarness_C08_T_plusminus() {
